@@ -23,7 +23,9 @@ Models == Flatten2([b \in 1..Cardinality(R) |-> Flatten2([f \in 1..Cardinality(R
 (* two stacked layers: FC(feat -> hidden) -> activation -> FC(hidden -> out) -> activation -> loss *)
 Deep == << <<"deep", "mse", "tanhact", "sigmoid", 2, 2, 2, 1>>, <<"deep", "bce", "relu", "sigmoid", 3, 1, 2, 1>>, <<"deep", "ce", "leakyrelu", "softmax", 2, 2, 3, 2>>,
            <<"deep", "mse", "sigmoid", "relu", 1, 3, 1, 1>>, <<"deep", "ce", "tanhact", "sigmoid", 3, 2, 2, 3>> >>
-Descs == MyCases(Models \o Deep)
+(* batch sizes and widths past the thresholds at which reductions are typically blocked *)
+BigModels == << <<"mse", "sigmoid", 9, 3, 1>>, <<"bce", "sigmoid", 11, 2, 1>>, <<"ce", "softmax", 17, 1, 2>>, <<"mse", "relu", 18, 2, 1>>, <<"mse", "tanhact", 2, 9, 1>> >>
+Descs == MyCases(Models \o Deep \o BigModels)
 
 ActPar(act) == CASE act = "leakyrelu" -> [k |-> Q(1, 10), nilconf |-> FALSE]
                   [] act = "softmax" -> [dim |-> 1, nilconf |-> FALSE]
